@@ -1236,4 +1236,25 @@ theorem writerRun_spec {P : Params} {F : Fmt} {calls : List (List TarEnt × Byte
       rw [hbtoc, htoc', ← hview]
       exact (hag hh).mono hcl.ext (fun _ h => h)
 
+
+/-- The source bytes of a list of calls: every entry's raw bytes and data, then the tail. -/
+def inputBytes : List (List TarEnt × Bytes) → Bytes
+  | [] => []
+  | c :: cs => c.1.flatMap entBytes ++ c.2 ++ inputBytes cs
+
+theorem callStream_lossless (P : Params) (hl : P.lossless = true) :
+    ∀ (calls : List (List TarEnt × Bytes)), (∀ e ∈ callEnts calls, e.isToc = false) →
+      callStream P calls = inputBytes calls := by
+  intro calls
+  induction calls with
+  | nil => intro _; rfl
+  | cons c cs ih =>
+    intro hlos
+    have h1 : keep c.1 = c.1 := by
+      simp only [keep, List.filter_eq_self]
+      intro e he
+      simp [hlos e (by simp [callEnts, he])]
+    have h2 := ih (fun e he => hlos e (by simp [callEnts, he]))
+    simp [callStream, inputBytes, tarStream, h1, lossTail, hl, h2]
+
 end SV.Writer
